@@ -12,5 +12,5 @@ for d in seeded/*/; do
   cp "$d"/*.go /tmp/seed-out/$prop/$k/ 2>/dev/null; cp "$d/README.md" /tmp/seed-out/$prop/$k/ 2>/dev/null
   base=$(python3 -c "import json;print(json.load(open('$d/meta.json')).get('base_commit',''))")
   out=$(SEED_FALLBACK="$base" tools/try_seed.sh "$prop" "$k" "$pkg" "$TIER" 2>&1)
-  echo "$id $(echo "$out" | grep -E 'check exit|PATCH' | tr '\n' ' ') demo-with-change: $(echo "$out" | grep mutant-demo | cut -c1-40)"
+  echo "$id $(echo "$out" | grep -E 'check exit|PATCH|FALLBACK' | tr '\n' ' ') demo-with-change: $(echo "$out" | grep mutant-demo | cut -c1-40)"
 done
